@@ -142,6 +142,17 @@ def r11_2(ctx):
                   "a lost flight is then never repaired from this side", core.describe_path(b, skip))
     h = ctx.body(D + "handshake::{closure#0}")
     r.scope.append(h.name)
+    # the retransmission timer runs undisturbed: nothing in the handshake loop re-arms it (an `interval.reset()` after every
+    # inbound packet looks like "the peer is alive" but starves the timer whenever ANY traffic - the peer's application
+    # data after it connected, duplicates, undecryptable records - arrives more often than the period: the flight whose
+    # answer was lost is then never sent again)
+    resets = [bi for bi, t, p in h.calls() if p and "time::Interval::reset" in p and bi not in h.cleanup]
+    if resets:
+        r.violate(h.name, "timer:reset", h.where(resets[0]),
+                  "the handshake loop resets the retransmission interval: inbound traffic that does not advance the handshake postpones "
+                  "the retransmission indefinitely")
+    else:
+        r.ok({"retransmission timer": "never reset inside the handshake loop"})
     calls = core.calls_to(h, suffix("DtlsInner::handle_retransmit"))
     if calls:
         r.ok({"handshake loop": "calls handle_retransmit on the interval tick", "site": h.where(calls[0][0])})
